@@ -2,7 +2,8 @@
    model); statement-side definitions: V.C08.Spec (good_name, sitem/sym_of = the symbols the converter's flush writes,
    ok_item, node_of). *)
 Require Import V.Lib.Base V.Lib.Calls V.Lib.Dec V.Gen.Consts V.Gen.Consts_C02 V.Gen.Consts_C08 V.C02.Model V.C02.Spec V.C08.Model V.C08.Spec
-               V.C08.ProofsStr V.C08.ProofsSym V.C08.ProofsFlush.
+               V.C08.ProofsStr V.C08.ProofsSym V.C08.ProofsFlush V.C02.ProofsMap V.C08.ProofsConv V.C08.ProofsTrip.
+Require Import Permutation.
 Local Open Scope Z_scope.
 
 (* (1) The two predicate texts are read back exactly.  For EVERY name n that is a good name (non-empty, NUL-free, quotes closed,
@@ -192,3 +193,122 @@ Theorem c08_flush_shape_partial : forall hs s s' cs, flushHeuristic_f s hs = (s'
               (In (d_name d) (map snd (symtab s')) \/ In (d_name d) (map s_name (outs s')))) ds.
 Proof. exact flush_heuristic_shape. Qed.
 Print Assumptions c08_flush_shape_partial.
+
+(* (7) The converter's symbol bookkeeping over WHOLE runs (gap A of c08_flush_shape_partial closed).
+   Hypothesis (B), explicit: call_ok c (C08/ProofsConv.v) = for `output(name, cond)`: the C string of the name is a good_name and
+   starts with none of `_heuristic(`, `_edge(`, `_acyc_`; for `heuristic(a,t,bias,prio,cond)`: 0 <= t <= eMax, bias an int,
+   0 <= prio <= 2^31-1; nothing for the other calls.
+   For EVERY call sequence p of such calls (any number of steps, any interleaving of initProgram / beginStep / endStep) that the converter
+   model accepts with next_ <= 2^28: every entry (output atom a, name n) of SmData::symTab_ is a good name and a symbol
+   `output(n, [a mod 2^31])` that was written in this or an earlier step, or is pending in output_ (written by the next endStep). *)
+Theorem c08_symtab_emitted : forall p s out, Forall call_ok p -> cv_run true cv0 p = Ok (s, out) -> next s <= SMID_MOD ->
+  forall a n, In (a, n) (symtab s) ->
+    good_name n /\ (In (COutput n [a mod AM]) out \/ In (a mod AM, n) (map sym_ent (outs s))).
+Proof. exact symtab_emitted. Qed.
+Print Assumptions c08_symtab_emitted.
+
+(* (7b) ... and every symbol the converter EVER writes (whole runs, any number of steps) is `out_of it` for an ok_item it - a plain name
+   without helper prefix, an `_edge(s,t)` text, or a `_heuristic(n,t,bias,prio)` text with good target name and fields in range - and the
+   target name of every `_heuristic` symbol is the name of a symbol `output(n, [x])` written in the same run (same or earlier step):
+   the reader of an incremental text, which keeps its table, finds it. *)
+Theorem c08_symbols_written : forall p s out, Forall call_ok p -> cv_run true cv0 p = Ok (s, out) -> next s <= SMID_MOD ->
+  forall n cond, In (COutput n cond) out ->
+    exists it, COutput n cond = out_of it /\ ok_item it /\
+      (forall d, it = IHeu d -> exists x, In (COutput (d_name d) [x]) out).
+Proof. exact symbols_written. Qed.
+Print Assumptions c08_symbols_written.
+
+(* (8) One endStep, from ANY state the step invariant SI holds in (SI E s its: `its` describes the pending symbols item by item as
+   `_edge` / plain symbols, every symTab_ entry is a good name and in E (= symbols written in earlier steps) or pending, the pending
+   heuristics are in range; established by cv0 and kept by every call - run_inv).  The flush writes: rules / minimize / externals (pre),
+   then `_heuristic(name,t,bias,prio)` for EXACTLY the pending heuristics whose atom is mapped (hm), then the pending symbols and the
+   `_atom(k)` names generated by this flush (its'), sorted by atom, then the compute statement.  Every written symbol is an ok_item -
+   so c08_heuristic / c08_edges / c08_filter apply to the table - and the target name of every `_heuristic` symbol is carried by a
+   symbol ON THE IMAGE OF THE HEURISTIC'S ATOM that was written before (E) or is written by this very flush. *)
+Theorem c08_flush_step : forall E s its s' cs, SI E s its -> Inv s -> next s' <= SMID_MOD -> flush true s = (s', cs) ->
+  let s2 := fst (flushExternal true (fst (flushMinimize s (mins s)))) in
+  let hm := filter (fun h => mapped s2 (h_atom h)) (heus s) in
+  exists pre names its' sorted,
+    cs = pre ++ map out_of (heu_syms hm names ++ sorted) ++ [CAssume [- false_atom]] /\
+    forallb is_pre pre = true /\ length names = length hm /\
+    Permutation sorted (its ++ its') /\
+    edges_of its' = [] /\ Forall (fun e => exists k, 0 <= k /\ snd e = fmt_atom_s k) (plains_of its') /\
+    Forall ok_item (heu_syms hm names ++ sorted) /\ Forall not_heu sorted /\
+    Forall (fun hn => In (img s2 (h_atom (fst hn)) mod AM, snd hn) (E ++ map sym_of sorted)) (combine hm names) /\
+    SI (E ++ map sym_of sorted) s' [] /\ Inv s' /\ good s s'.
+Proof. exact flush_shape. Qed.
+Print Assumptions c08_flush_step.
+
+(* (9) The composed statement for ONE-STEP programs  p = initProgram(i); beginStep; body; endStep  (body: any calls except the three
+   protocol calls, each call_ok), through the whole model pipeline  conv_write (converter + writer acceptance) -> read_back (reader):
+   if the pipeline accepts (conv_write = Ok with next_ <= 2^28, reader ok) then, with sb = the converter's state at endStep,
+   s2 = that state after flushMinimize / flushExternal, tab = the symbols written (name, atom):
+   - the pending heuristics of sb are the input's heuristic calls, in order, same atom / modifier / bias / priority;
+   - with cHeuristic the delivered heuristic calls are, in order, EXACTLY one per pending heuristic whose atom is mapped in s2 (= occurs in
+     the program), with the same modifier, bias, priority, condition atom = the converter's condition atom, on the atom of the FIRST
+     written symbol carrying the target name - and a symbol with that name on the image of the heuristic's own atom was written
+     (so, names being unique, it IS the image); heuristics on unmapped atoms are dropped; without cHeuristic none is delivered;
+   - with cEdge the delivered edge calls are one per input edge (es is a permutation - the order of the symbol table, sorted by atom - of
+     es_in, which matches the input's edge calls in order), nodes renamed by node_of nodes, which is injective on every node that occurs;
+   - without filter every written symbol is shown; with all three options on the shown symbols are exactly the user's outputs
+     (name cut at NUL, on the converter's output atom) and the generated `_atom(k)` names, and no shown name has a helper prefix.
+   c08_trip_partial: MISSING is the induction over SEVERAL steps (incremental programs): c08_flush_step re-establishes the step invariant
+   with E extended by the symbols written, and run_inv / c08_symtab_emitted carry it over whole runs, but the statement that the reader's
+   table (kept across steps iff incremental) contains E at every later step, and the per-step conclusions below for step k, are not
+   composed.  For a non-incremental multi-step text the reader forgets its table, so a heuristic naming a symbol of an earlier step IS
+   dropped there (the model shows it; outside the property's programs).  The conditions ("active in every answer set") are C02's subject. *)
+Theorem c08_trip_partial : forall o i body s' w' out,
+  forallb in_step body = true -> Forall call_ok body ->
+  conv_write true cv0 sw0 (CInit i :: CBegin :: body ++ [CEnd]) = Ok (s', w', out) ->
+  next s' <= SMID_MOD -> snd (read_back o out) = true ->
+  let d := fst (read_back o out) in
+  exists (sb : cv) (ob : list call) (names : list (list Z)) (tab : list (list Z * Z)) (nodes : list (list Z))
+         (es_in es : list (Z * Z * Z)) (shown_in gen : list (Z * list Z)),
+    let s2 := fst (flushExternal true (fst (flushMinimize sb (mins sb)))) in
+    let hm := filter (fun h => mapped s2 (h_atom h)) (heus sb) in
+    cv_run true cv0 body = Ok (sb, ob) /\
+    Forall2 heu_rel (filter is_heu_call body) (heus sb) /\ length names = length hm /\
+    map (fun e => COutput (fst e) [snd e]) tab = filter is_out_call out /\
+    (forall k a, In (k, a) tab -> a <> 0) /\
+    (cH o = true -> filter is_heu_call d = map (heu_call tab) (combine hm names)) /\
+    (cH o = false -> filter is_heu_call d = []) /\
+    Forall (fun hn => tab_find (snd hn) tab <> 0 /\ In (snd hn, tab_find (snd hn) tab) tab /\
+                      In (snd hn, img s2 (h_atom (fst hn)) mod AM) tab) (combine hm names) /\
+    Forall2 edge_rel (filter is_edge_call body) es_in /\ Permutation es es_in /\
+    (cE o = true ->
+       filter is_edge_call d = map (fun e => match e with (c, s, t) => CEdge (node_of nodes s) (node_of nodes t) [c] end) es /\
+       (forall c s t, In (c, s, t) es -> In (print_Z s) nodes /\ In (print_Z t) nodes)) /\
+    (forall z z', In (print_Z z) nodes -> node_of nodes z = node_of nodes z' -> z = z') /\
+    (cE o = false -> filter is_edge_call d = []) /\
+    Forall2 out_rel (filter is_out_call body) shown_in /\ Forall (fun e => exists k, 0 <= k /\ snd e = fmt_atom_s k) gen /\
+    (flt o = false -> filter is_out_call d = filter is_out_call out) /\
+    (cE o = true -> cH o = true -> flt o = true ->
+       (forall c, In c (filter is_out_call d) <-> exists a n, c = COutput n [a] /\ In (a, n) (shown_in ++ gen)) /\
+       (forall n a, In (COutput n [a]) (filter is_out_call d) -> no_helper_prefix n)).
+Proof. exact trip_single. Qed.
+Print Assumptions c08_trip_partial.
+
+(* non-vacuity: a one-step program with a rule, two named atoms (`a` on atom 1, `p("a,b",f(1,2))` on atom 2), heuristics on the named
+   atom 1, on the unnamed atom 3 (gets `_atom(k)`) and on atom 9 that does not occur (dropped), two edges, an external; the hypotheses
+   hold and the pipeline delivers two heuristics, two edges and - with filter - exactly the two user symbols and the generated name *)
+Definition trip_body : list call :=
+  [CRule 0 [1] [2; -3]; COutput [97] [1]; COutput nm_pab [2]; CExternal 4 2;
+   CHeuristic 1 1 (-2147483648) 2147483647 [2]; CHeuristic 3 4 7 0 []; CHeuristic 9 0 1 1 [];
+   CEdge 0 1 [1]; CEdge 1 (-5) [-2; 3]].
+Example c08_trip_nonvacuous :
+  forallb in_step trip_body = true /\ Forall call_ok trip_body /\
+  exists s w out, conv_write true cv0 sw0 (CInit false :: CBegin :: trip_body ++ [CEnd]) = Ok (s, w, out) /\ next s <= SMID_MOD /\
+    snd (read_back (mkO true true true) out) = true /\
+    filter is_heu_call (fst (read_back (mkO true true true) out)) = [CHeuristic 2 1 (-2147483648) 2147483647 [6]; CHeuristic 4 4 7 0 [7]] /\
+    length (filter is_edge_call (fst (read_back (mkO true true true) out))) = 2%nat /\
+    length (filter is_out_call (fst (read_back (mkO true true true) out))) = 3%nat.
+Proof.
+  split; [reflexivity|]. split.
+  { repeat (apply Forall_cons; [cbn [call_ok]; try exact I|]); try apply Forall_nil.
+    - split; [apply good_nameb_ok; vm_compute; reflexivity | repeat split; vm_compute; reflexivity].
+    - split; [apply good_nameb_ok; vm_compute; reflexivity | repeat split; vm_compute; reflexivity].
+    - unfold heu_emax, C_INT_MIN, C_INT_MAX. lia.
+    - unfold heu_emax, C_INT_MIN, C_INT_MAX. lia.
+    - unfold heu_emax, C_INT_MIN, C_INT_MAX. lia. }
+  do 3 eexists. split; [vm_compute; reflexivity|]. split; [vm_compute; discriminate|]. repeat split; vm_compute; reflexivity.
+Qed.
